@@ -69,6 +69,7 @@ static void run(int tier, int prog) {
   h_maybe_custom_steal(prog, cur->W);
   h_join_counter_init(&jc, prog & 1, cur->N);
   static h_sentinel_t sent; h_sentinel_start(&sent, 7, prog);
+  static h_bystander_t byst; h_bystander_start(&byst, prog, cur->W);
   myth_thread_t th[8]; int nt = 0, nw = 0;
   for (const char * s = cur->order; *s; s++) { if (*s == 'd') th[nt++] = myth_create(decr, 0); else { th[nt++] = myth_create(waiter, 0); nw++; } }
   waiter(0);   /* main: possibly late */
@@ -77,6 +78,7 @@ static void run(int tier, int prog) {
   MV_CHECK(jc.sleep_q->head == 0, "a waiter is still on the join counter's sleep queue");
   myth_join_counter_wait(&jc);  /* afterwards: returns immediately */
   mv_obs("N=%d released=%d", cur->N, released);
+  h_bystander_finish(&byst);
   h_sentinel_finish(&sent);
   h_join_counter_epilogue(&jc, prog & 1);
   mv_finish();
